@@ -582,7 +582,7 @@ impl<'a> Interp<'a> {
         if let Some(k) = &key {
             op.insert("key".into(), json!(k));
         }
-        for f in ["entry", "algo", "chunks", "flush_after", "repoll", "stop_after", "end", "bufs", "check", "mid_after", "fully", "reads", "clock_at_commit", "cancel_polls", "abandon_chunks"] {
+        for f in ["entry", "algo", "chunks", "flush_after", "repoll", "stop_after", "end", "bufs", "check", "mid_after", "fully", "reads", "clock_at_commit", "cancel_polls", "abandon_chunks", "write_all"] {
             if let Some(v) = st.get(f) {
                 op.insert(f.into(), v.clone());
             }
@@ -698,6 +698,9 @@ impl<'a> Interp<'a> {
             // Whatever the writer then reports must be self-consistent: the address it returns names a file holding
             // exactly the bytes of that address, and the key (if any) maps to it.
             self.probe("write_abandoned_mid_chunk");
+            if r["v"] == "Bogus" {
+                self.viol("write-ok", format!("write-ok/abandoned-chunk/{}/count-exceeds-buffer", Self::flav(st)), "after an earlier write future was dropped, write() reported more bytes than the buffer it was given (write_all panics on that)".to_string());
+            }
             if r["r"] == "ok" {
                 let got = r["sri"].as_str().unwrap_or("").to_string();
                 let ok = hash::content_rel(&got).map(|rel| disk::check_content_file(&self.cache, &rel, disk::FileKind::Regular)).map(|cf| cf.digest_ok).unwrap_or(false);
